@@ -53,13 +53,14 @@ func c03Selections() []*refsem.E {
 }
 
 func c03Docs(tier string) []*val.V {
-	var docs []*val.V
+	var docs, enumerated []*val.V
 	sc := []*val.V{val.IntV(1), val.IntV(0), val.StrV("a")}
 	for _, d := range val.Universe(3, sc, []string{"a", "ab", "b"}) {
 		if d.K == val.Seq || d.K == val.Map {
-			docs = append(docs, d)
+			enumerated = append(enumerated, d)
 		}
 	}
+	// (the hand-written documents come first, the enumerated ones last: should the time budget end the search, it ends there)
 	for _, h := range []string{
 		`[3, 1, 2]`, `[[2, 1], [0]]`, `{"a": [3, 1, 2], "b": 1}`, `[{"a": 2}, {"a": 1}]`, `[{"a": 1, "b": 0}, {"a": 1}, {"a": 0}]`,
 		`{"a": {"ab": 1, "a": 0}, "ab": [1]}`, `[1, [2, [3]], 1]`, `{"a": [{"a": 1}, {"a": 0}], "ab": 2}`, `[1, 0, 1, 0]`,
@@ -74,7 +75,7 @@ func c03Docs(tier string) []*val.V {
 	for _, h := range c03RawDocs {
 		docs = append(docs, c03Raw(h))
 	}
-	return docs
+	return append(docs, enumerated...)
 }
 
 var c03RawDocs = []string{
